@@ -461,7 +461,12 @@ func (s *Schema) listValue(r *gen.Rng, l *List, depth int, o *VOpts) interface{}
 					kv = keyNames[r.Intn(ks)]
 				}
 				if hasDefault(ea.Map, kf) && r.Chance(50) {
-					delete(item, kf)
+					if r.Chance(35) {
+						// the default spelled out: the same item as one that omits the key
+						item[kf] = defaultOf(ea.Map, kf)
+					} else {
+						delete(item, kf)
+					}
 					sig += kf + "=<default>;"
 				} else if !o.Plain && r.Chance(12) {
 					// an explicit null in a key field is a key value of its own, default or not
@@ -533,6 +538,15 @@ func fieldOf(m *Map, name string) Ref {
 		return *m.Elem
 	}
 	return Ref{}
+}
+
+func defaultOf(m *Map, name string) interface{} {
+	for i := len(m.Fields) - 1; i >= 0; i-- {
+		if m.Fields[i].Name == name {
+			return m.Fields[i].Default
+		}
+	}
+	return nil
 }
 
 func hasDefault(m *Map, name string) bool {
